@@ -24,3 +24,38 @@ Theorem C09_dmdc_lift (F : fieldType) p r (Q : 'M[F]_(p, r)) (M : 'M[F]_r) (v : 
   M *m (Q^T *m v) = lam *: (Q^T *m v) /\ Q^T *m v != 0.
 Proof. exact: dmdc_lift_eigen. Qed.
 Print Assumptions C09_dmdc_lift.
+
+(* ---------- about the code itself: the blocks that the four spectral-radius problem builders hand to the solver, as
+   REGENERATED from the source on this run (tools/gen_lmi_sr.py -> Gen/LmiSrGen.v; rho_bar is the spectral_radius parameter,
+   the constraint is `>> picos_eps`, problem B also constrains P >> picos_eps), ARE the block above with A the state
+   block of the Koopman matrix; hence their quadratic form is the one C09_contraction assumes *)
+From PK Require Import BridgeLmiSr.
+From PK.Gen Require Import LmiSrGen.
+
+Theorem C09_generated_blocks (F : fieldType) p q (rho : F) (P : 'M[F]_p) (U : 'M[F]_(p, p + q)) :
+  let A := lsubmx U in
+  let blk := block_mx (rho *: P) (A^T *m P) (P^T *m A) (rho *: P) in
+  gen_sr_edmd_b rho P U = blk /\ gen_sr_dmdc_b rho P U = blk
+  /\ (2%:R != 0 :> F -> P^T = P -> gen_sr_edmd_a rho P U = blk /\ gen_sr_dmdc_a rho P U = blk).
+Proof.
+  split; [exact: gen_sr_edmd_b_model|split; [exact: gen_sr_dmdc_b_model|]].
+  by move=> n2 sP; split; [exact: gen_sr_edmd_a_model|exact: gen_sr_dmdc_a_model].
+Qed.
+Print Assumptions C09_generated_blocks.
+
+Theorem C09_generated_quadratic_form (F : fieldType) p q (rho : F) (P : 'M[F]_p) (U : 'M[F]_(p, p + q)) (v w : 'cV[F]_p) :
+  2%:R != 0 :> F -> P^T = P ->
+  (col_mx v w)^T *m gen_sr_edmd_a rho P U *m col_mx v w
+  = rho *: bil P v v + bil P w (lsubmx U *m v) *+ 2 + rho *: bil P w w.
+Proof.
+  move=> n2 sP. rewrite gen_sr_edmd_a_model //. exact: lyap_block_quad_sym.
+Qed.
+Print Assumptions C09_generated_quadratic_form.
+
+(* non-vacuity: a concrete instance over any field in which 2 is invertible: rho = 1, P = 1, U = 0 *)
+Example C09_generated_example (F : fieldType) : 2%:R != 0 :> F ->
+  gen_sr_edmd_a (1 : F) (1%:M : 'M[F]_2) (0 : 'M[F]_(2, 2 + 1)) = block_mx 1%:M 0 0 1%:M.
+Proof.
+  move=> n2. rewrite gen_sr_edmd_a_model ?trmx1 // /lyap_block scale1r.
+  by rewrite (_ : lsubmx 0 = 0) ?trmx0 ?mul0mx ?mulmx0 //; apply/matrixP=> i j; rewrite !mxE.
+Qed.
